@@ -408,7 +408,7 @@ func writeSeq(r *ev.Run, name string, maxLen, faultLen, invalidLen int) {
 			par.For(len(items), func(ix int) {
 				it := items[ix]
 				loc := wlocal{outcomes: map[woutcome]bool{}}
-				c := wcase{Content: content, Comp: comp}
+				c := wcase{Content: content, Comp: comp, Pool: "bounded"} // decoder reuse: a fresh klauspost decoder per call costs ~1 ms here
 				emit := func(msgs []wmsg) {
 					c.Msgs = msgs
 					for _, term := range []string{"eof", "error"} {
